@@ -25,6 +25,7 @@ LEVELS = {
     "C18": "model_checking",
     "C19": "model_checking",
     "C07": "model_checking",
+    "C09": "model_checking",
 }
 
 # property -> vlib module with run_property(prop, tier, report)
@@ -40,6 +41,7 @@ RUNNERS = {
     "C18": "fslookup",
     "C19": "cli",
     "C07": "types",
+    "C09": "agg",
 }
 
 
